@@ -29,7 +29,7 @@ MANIFEST = dict(
          "latest poll, expired timers by deadline) and requires the chosen callback to be maximal; per events_run call it checks that a call starting "
          "with something runnable runs a callback without blocking, that every poll timeout is at most the earliest deadline rounded up to 1 ms "
          "(never infinite with a timer pending), that wake-ups dispatch, and that the first non-zero result or an interrupt request stops dispatching "
-         "and is returned unchanged; undelivered events are delivered by the final drain.",
+         "and is returned unchanged; undelivered events are delivered by the final drain. Interrupt requests also arrive from a signal handler during a clock reading made by the loop (nothing registered may be lost).",
     note="Trusted: the POSIX poll model and virtual clock in props/C04/core.cpp, clang 14 sanitizers, rapidcheck. 'Blocks no longer than' is checked on "
          "the timeout argument handed to poll, not on real sleeping; no lower bound is demanded (waking early is not a violation).",
 )
